@@ -3,14 +3,13 @@
    Coll/PGHT.v and followed by Print Assumptions.  Model: Coll/ModelGHT.v.
    [wf h d t]: t is a trie of height h keyed from column d on, as produced by insert/merge
    (distinct child keys, no empty child, rows below child k have k in column d, leaves are sets).
-   NOT covered (stated, not proved; see checks/C08.json): the trie join bimorphisms
-   (GhtCartesianProductBimorphism, GhtValTypeProductBimorphism, GhtNodeKeyedBimorphism,
-   DeepJoinLatticeBimorphism) "return exactly the relational join of their inputs", and COLT force. *)
+   NOT covered: COLT force (colt.rs) and the leaf's `forced` flag. *)
 From HV Require Import Coll.ModelGHT Coll.PGHT.
 From Coq Require Import Permutation.
 
 (* Every answer of every history of insert / merge / contains / recursive_iter / prefix_iter /
-   find_containing_leaf / partial_cmp / == / height / is_bot on two tries of any height equals the
+   find_containing_leaf / partial_cmp / == / height / is_bot / deep join / cartesian product on
+   two tries of any height equals the
    answer of the plain set of rows, with one exception class: partial_cmp may panic where the
    specification says None (gans_ok; see C08_pcmp_refuted). *)
 Theorem C08_history :
@@ -77,6 +76,33 @@ Theorem C08_find_leaf :
 Proof. exact find_leaf_spec. Qed.
 Print Assumptions C08_find_leaf.
 
+(* DeepJoinLatticeBimorphism (GhtNodeKeyedBimorphism nested over GhtValTypeProductBimorphism):
+   the rows of the output trie are exactly the natural join on the key columns d .. d+h-1,
+   each once (wfw gives NoDup of recursive_iter, C08_join_nodup) *)
+Theorem C08_join :
+  forall h d nk a b, wf h d a -> wf h d b ->
+    Forall (fun x => h + d <= length x) (riter h a) ->
+    Forall (fun x => h + d <= length x) (riter h b) ->
+    wfw h d (deep_join h nk a b) /\
+    forall z, In z (riter h (deep_join h nk a b)) <->
+      exists x y, In x (riter h a) /\ In y (riter h b) /\
+                  firstn h (skipn d x) = firstn h (skipn d y) /\ z = x ++ skipn nk y.
+Proof. exact deep_join_spec. Qed.
+Print Assumptions C08_join.
+
+Theorem C08_join_nodup : forall h d t, wfw h d t -> NoDup (riter h t).
+Proof. exact riter_nodup_w. Qed.
+Print Assumptions C08_join_nodup.
+
+(* GhtCartesianProductBimorphism at the roots, collected into a trie with nko key columns *)
+Theorem C08_cart :
+  forall h nko a b,
+    wf nko 0 (cart_product h nko a b) /\
+    forall z, In z (riter nko (cart_product h nko a b)) <->
+              exists x y, In x (riter h a) /\ In y (riter h b) /\ z = x ++ y.
+Proof. exact cart_product_spec. Qed.
+Print Assumptions C08_cart.
+
 (* the executable form evaluated on the implementation's answers *)
 Theorem C08_holds_b_sound :
   forall nk ops impl, C08_holds_b nk ops impl = true <-> Forall2 gans_equiv impl (gspec_run nk ops).
@@ -105,8 +131,9 @@ Example C08_ex_pcmp :
 Proof. vm_compute. reflexivity. Qed.
 Example C08_ex_history :
   let ops := [GInsert false [1; 1; 5]; GInsert true [1; 2; 6]; GMerge false; GCmp false;
-              GPrefix false [1; 2]; GLeaf false [1; 1; 5]; GEq true]%N in
+              GPrefix false [1; 2]; GLeaf false [1; 1; 5]; GEq true; GInsert true [1; 1; 7]; GJoin false]%N in
   gops_ok 2 3 ops = true /\
   gmodel_run 2 ops = [GABool true; GABool true; GABool true; GACmp (PSome Gt); GARows [[1; 2; 6]];
-                      GAOptRows (Some [[1; 1; 5]]); GABool false]%N.
+                      GAOptRows (Some [[1; 1; 5]]); GABool false; GABool true;
+                      GARows [[1; 2; 6; 6]; [1; 1; 5; 7]]]%N.
 Proof. split; vm_compute; reflexivity. Qed.
